@@ -141,3 +141,40 @@ Section WithMerge.
       apply find_none_iff. tauto.
   Qed.
 End WithMerge.
+
+(* ---- determineExponent: the fuel never decides for a factor >= 2 ... ------------ *)
+Lemma det_exp_stops (mult seg : N) :
+  (2 <= mult)%N ->
+  forall f sz lvl extra, (seg < sz * 2 ^ N.of_nat f)%N ->
+    det_exp_aux mult seg sz lvl (f + extra) = det_exp_aux mult seg sz lvl f.
+Proof.
+  intros Hm. induction f as [|f IH]; intros sz lvl extra Hlt.
+  - simpl in Hlt. rewrite N.mul_1_r in Hlt. simpl.
+    destruct extra as [|e]; [reflexivity|]. simpl.
+    destruct (N.leb_spec sz seg); [lia|]. reflexivity.
+  - simpl. destruct (N.leb sz seg && N.ltb 0 sz) eqn:E; [|reflexivity].
+    apply IH. rewrite Nat2N.inj_succ, N.pow_succ_r' in Hlt. nia.
+Qed.
+
+Theorem determine_exponent_fuel_suffices (mult seg cur : N) (lvl extra : nat) :
+  (2 <= mult)%N -> (seg < 2 ^ 64)%N ->
+  det_exp_aux mult seg (cur * mult) lvl (64 + extra) = determine_exponent mult seg cur lvl.
+Proof.
+  intros Hm Hs. unfold determine_exponent.
+  destruct (N.eq_dec (cur * mult) 0) as [Z|NZ].
+  - rewrite Z. simpl. destruct (N.leb 0 seg); reflexivity.
+  - apply det_exp_stops; auto. change (N.of_nat 64) with 64%N. nia.
+Qed.
+
+(* ... and for a factor of 1 it ALWAYS decides: the loop of the code does not end (F40) *)
+Theorem det_exp_mult_one_never_stops (seg sz : N) (lvl fuel : nat) :
+  (0 < sz)%N -> (sz <= seg)%N -> det_exp_aux 1 seg sz lvl fuel = lvl + fuel.
+Proof.
+  intros Hp Hle. revert lvl. induction fuel as [|f IH]; intros lvl; simpl; [lia|].
+  destruct (N.leb_spec sz seg); [|lia]. destruct (N.ltb_spec 0 sz); [|lia]. simpl.
+  rewrite N.mul_1_r, IH. lia.
+Qed.
+
+(* the repaired code never works with a factor below 2 *)
+Lemma eff_mult_ge_2 m : (2 <= eff_mult m)%N.
+Proof. unfold eff_mult. destruct (N.ltb_spec m 2); lia. Qed.
